@@ -21,7 +21,8 @@ def check_C08(tier, seed):
         rule="seeded histories of 3..12 operations over {ingest into 1..3 tables, burst of ingests, force_flush, "
              "evict_cache, restart} on an on-disk database, every lifetime in its own process; classes: dense "
              "(no background flush), dense-bgflush (max_wal_files in {0,1,2} / max_wal_size_bytes in {1,300,700}), "
-             "dense-recompact (partition_combine_factor 0); factors {0,1,4,999}, io_threads and "
+             "dense-recompact (partition_combine_factor 0 only); factors {0,1,4,999} in every class, integer columns "
+             "of 8/16/32-bit width, io_threads and "
              "wal_flush_compaction_threads in {1,4}, max_partition_size_bytes in {1,40,8Mi}; a case is non-trivial "
              "when it contains a flush or a restart; after every step the model must predict table content, both "
              "catalogue listings, partition layout, buffer lengths, column-name sets, durable catalogue entries, "
@@ -60,7 +61,8 @@ def check_C07(tier, seed):
         rule=HIST_RULE + "classes: dense, absent-columns (column sets change at partition boundaries; F1 once a merged "
              "partition has a partially-NULL column), nulls-no-compaction, nulls-compaction (F1), strings (ordinary words; "
              "F28 once a merged packed-string column compresses), hex-strings (F2), compressible-strings (F28), wide-ints "
-             "(u16/u32 integer columns; F29), the F1 and F3 witnesses; all other classes use 8-bit integers and floats only; "
+             "(every factor with restarts; regression class of the fixed F29), the F1 witness and the witness of the fixed "
+             "F3; strings occur only in the three string classes, integers of 8/16/32-bit width and floats everywhere; "
              "oracle without model: "
              "content after every maintenance step = content before = acknowledged rows; partition ranges tile [0,n)")
 
@@ -75,13 +77,18 @@ def check_C09(tier, seed):
             "the effect model keeps what recovery can tell apart: temp files of partition / catalogue files are never "
             "read, so only their rename is an effect; sync changes nothing a reader sees"],
         assumptions=["workloads are sequential (no ingestion concurrent with the flush)",
-                     "recovery stopping at a catalogue-loading site is allowed by the C09 theorems and excluded by C13"],
+                     "the theorems that exclude every failure of recovery are for histories of well-formed requests "
+                     "(table names outside the catalogue namespace, C13); for arbitrary histories recovery returns the "
+                     "same content or stops at a catalogue look-up of the replay (C09_cuts_any_history)"],
         rule="seeded workloads of 3..6 operations over {ingest into 1..3 tables, force_flush with factor 0/1/4/999, restart}; "
              "every directory copy taken after a primitive effect (deduplicated by names+sizes, capped at 32 per workload in "
              "the quick tier: all cuts of ingestions, an even sample of the others) and 0%/50% truncations of a written log "
-             "temp file are opened in a child process under a deadline; allowed: acknowledged content, or that plus the "
-             "in-flight request whole (catalogue included); every 4th copy is opened twice, copies taken at the recovery's "
-             "own effects are opened once more, one recovered copy per workload is flushed; the abstracted effect trace of "
+             "temp file are opened in a child process under a deadline; required, as in the model: for a cut of an "
+             "ingestion exactly the acknowledged content while the segment still has its temporary name and exactly that "
+             "plus the in-flight request whole (catalogue included) once it is renamed, for every other cut the "
+             "acknowledged content; the recovery must have removed a leftover log temp file; every 4th copy is opened twice, copies taken at the recovery's "
+             "own effects (removal of the temp file, of segments below the cursor) are opened once more, per workload one "
+             "copy recovered from a cut with a log temp file and one from a cut of a flush are flushed; the abstracted effect trace of "
              "every operation must equal the model's (store_effects) and partition files / catalogue / removals must be "
              "ordered; non-trivial: the workload produced at least one cut")
 
@@ -96,7 +103,8 @@ def check_C13(tier, seed):
                      "_meta_columns_* (the model's and the theorems' order)"],
         rule=HIST_RULE + "classes: vary-within (every batch its own column subset, factor 999), vary-within-bgflush, "
              "vary-across (column sets change at partition boundaries, factors 1/4), vary-across-recompact (factor 0; F1 once "
-             "a merged partition has a partially-NULL column), long-compressible-names (F28), the F3 witness; oracle "
+             "a merged partition has a partially-NULL column), long-compressible-names (F28), the witness of the fixed F3; "
+             "oracle "
              "without model: SELECT column_name FROM _meta_columns_<t> = the set of names ever sent to t, each once; "
              "SELECT name FROM _meta_tables = tables and their catalogue tables, each once; SELECT * has the sorted "
              "catalogue as columns and the acknowledged cells (NULL where a batch did not carry the column)")
@@ -119,32 +127,40 @@ CLAIMED = {
              "name set is present it equals that catalogue and covers every column the table's rows carry "
              "(C13_loaded_names_are_catalogue) - the invariant is re-established segment by segment during WAL replay; "
              "(3) a column a batch did not mention reads NULL for that batch's rows in every reachable state "
-             "(C13_missing_is_null); (4) catalogue rows travel in the request's own log segment; (5) with the literal of "
-             "Table::new repaired (seed \"column_name\") compaction of any table always iterates over every column the "
-             "merged rows carry - the guarded run never stops at the F3 site (C13_compaction_carries_all); (6) a restart of "
+             "(C13_missing_is_null); (4) catalogue rows travel in the request's own log segment; (5) compaction of any table "
+             "(client table or catalogue table, restored from disk or not) always iterates over every column the merged "
+             "rows carry - the guarded run never stops for an incomplete name set, only at the F1 site "
+             "(C13_compaction_carries_all, without premise since F3 was fixed by 647a26b); (6) a restart of "
              "any reachable state returns: no catalogue-loading panic during WAL replay (C13_restart_total); (7) SELECT name "
-             "FROM _meta_tables lists exactly the tables of the database other than itself, each once (C13_tables_listed). On the faithful "
-             "model (5) is refuted by the F3 witness (seed \"column_names\"), replayed on the implementation on every run. Tied to the code by the history differential with column-set generators and the "
+             "FROM _meta_tables lists exactly the tables of the database other than itself, each once (C13_tables_listed). The "
+             "witness of the fixed F3 is evaluated in Coq (C13_f3_witness_passes) and replayed on the implementation on "
+             "every run. Tied to the code by the history differential with column-set generators and the "
              "catalogue / SELECT * observers.",
-        note="All statements of the design are closed; SELECT * column order / expansion is covered by the correspondence run only. Guarded run (stops at F1 / F3 sites). The order of tables within one event buffer is fixed in the "
+        note="All statements of the design are closed; SELECT * column order / expansion is covered by the correspondence run only. Guarded run (stops at the F1 site). The order of tables within one event buffer is fixed in the "
              "model (client tables, _meta_tables, catalogue tables).",
         technique="Coq invariant proof over operation histories (log-level catalogue invariant + replay induction) + "
-                  "refutation witness + history correspondence",
+                  "history correspondence",
         design_ref="5/C13"),
     "C09": dict(
         text="Machine-checked proof (Coq 8.16) over a model of the persistence protocol at the granularity of the primitive "
-             "file effects recovery can tell apart (log temp file created / written / renamed, partition file renamed into "
-             "place, catalogue file replaced, partition file removed, segment removed): from every prefix of the effects of "
-             "an ingestion, started at any reachable state, recovery returns the acknowledged content or that plus the "
-             "in-flight request whole across all its tables - except exactly the cut where the log temp file is incomplete, "
-             "where opening fails (F8: panic since b430922, hang before; refutation witness proved); from every prefix of the effects of a flush (any factor, any "
-             "size oracle) recovery returns the acknowledged content; partition files precede the catalogue which precedes "
-             "removals; recovery of a state at rest has no effects and recovering twice gives the same. Tied to the code by "
-             "the fs_effect hook: effect-trace conformance per operation and reopening a copy of the directory taken at "
-             "every effect in a child process under a deadline.",
-        note="Partial w.r.t. the host file system (process death only, no reordering). Findings: F8 (incomplete log temp "
-             "file: the database cannot be opened), F8b (complete log temp file is replayed but the next flush panics removing <id>.wal).",
-        technique="Coq proof over effect prefixes (frame invariants) + effect-trace correspondence + crash-copy reopen",
+             "file effects recovery can tell apart (log temp file created / written / renamed / removed, partition file "
+             "renamed into place, catalogue file replaced, partition file removed, segment removed), for every history of "
+             "well-formed requests: from every prefix of the effects of an ingestion recovery returns a database holding "
+             "exactly the acknowledged content while the segment has its temporary name (absent, partial or complete: "
+             "Storage::recover does not read it) and exactly that plus the in-flight request, whole across all its tables, "
+             "once it is renamed (C09_ingest_cuts); from every prefix of the effects of a flush (any factor, any size "
+             "oracle) it returns exactly the acknowledged content (C09_flush_cuts); no cut makes recovery fail "
+             "(C09_recoverable); partition files precede the catalogue which precedes removals (C09_order); recovery's own "
+             "effects (removal of the temp file, of segments below the cursor) can be cut anywhere without changing what "
+             "the next recovery returns, and recovering twice gives the same (C09_idempotent). Tied to the code by the "
+             "fs_effect hook: effect-trace conformance per operation and reopening a copy of the directory taken at every "
+             "effect in a child process under a deadline.",
+        note="Partial w.r.t. the host file system (process death only, no reordering). The earlier findings F8 (incomplete "
+             "log temp file: the database could not be opened) and F8b (complete log temp file replayed, next flush "
+             "panicked) were fixed by 4e8886f; their refutation theorems are kept as history in comments and their "
+             "witness is now C09_f8_witness_recovers.",
+        technique="Coq proof over effect prefixes (frame invariants + totality of the replay) + effect-trace "
+                  "correspondence + crash-copy reopen",
         design_ref="5/C09"),
     "C18": dict(
         text="Machine-checked proof (Coq 8.16) over the persistence model that after every completed flush of any reachable "
@@ -166,9 +182,10 @@ CLAIMED = {
              "eviction, restart) leaves every table's rows, order, cells and columns unchanged, and that a reload reads "
              "exactly the partition's rows; for the faithful model the statement is refuted by the F1 witness (a = [10, NULL], "
              "one flush with factor 0 gives [10, 0]), which is replayed on the implementation.",
-        note="Content preservation is proved for the guarded run (compaction stops at the F1 / F3 sites). F2 (hex-packed "
-             "strings: todo!()), F28 (LZ4-compressed packed strings) and F29 (LZ4-compressed u16/u32 integers) are defects "
-             "of the free column::decode found by the correspondence run, not modelled.",
+        note="Content preservation is proved for the guarded run (compaction stops at the F1 site; the incomplete-name-set "
+             "site of the fixed F3 is unreachable, C13). F2 (hex-packed strings: todo!()) and F28 (LZ4-compressed packed "
+             "strings) are open defects of the free column::decode found by the correspondence run, not modelled; F29 "
+             "(LZ4-compressed u16/u32 integers) was fixed by e838f01.",
         technique="Coq invariant proof over operation histories + refutation witness + history correspondence",
         design_ref="5/C07"),
     "C08": dict(
@@ -180,8 +197,8 @@ CLAIMED = {
              "yields exactly the acknowledged log (for client tables: exactly the rows sent, in order, once); the "
              "non-contiguity assertion, missing-file and missing-segment panics are unreachable. The model is tied to the "
              "code by a history differential on a real on-disk database (content, catalogue, layout, directory, cursor).",
-        note="Proved for the guarded run, which stops at the compaction sites of findings F1 (null map lost) and F3 "
-             "(misspelt catalogue column) instead of executing them. Trusted: Coq kernel, extraction, glue, hooks; "
+        note="Proved for the guarded run, which stops at the compaction site of the open finding F1 (null map lost) "
+             "instead of executing it. Trusted: Coq kernel, extraction, glue, hooks; "
              "crash behaviour is C09.",
         technique="Coq invariant proof by induction over operation histories + history correspondence with hooks",
         design_ref="5/C08"),
